@@ -70,12 +70,12 @@ def f11_emulate(pattern, x0, dx, sel):
     return emu
 
 
-def build_lrs(rng, ctx, cons=None):
+def build_lrs(rng, ctx, cons=None, xunits=b'FEET', dx_menu=(1, 5, 60, 250)):
     """the logical records of one LIS logical file (head, optional table, DFSR, data records, tail) + what they hold"""
     nch = rng.choice([1, 2, 3, 5])
     indirect = rng.random() < 0.5
     up = rng.random() < 0.5
-    dxa = rng.choice([1, 5, 60, 250])
+    dxa = rng.choice(list(dx_menu))
     dx = -dxa if up else dxa
     chans = []
     for c in range(nch):
@@ -84,12 +84,12 @@ def build_lrs(rng, ctx, cons=None):
             rc = rng.choice([68, 73])
         samples = 1 if (c == 0 and not indirect) else rng.choice([1, 1, 2, 4])
         bursts = 1 if (c == 0 and not indirect) else rng.choice([1, 1, 2])
-        chans.append(dict(mnem=('CH%02d' % c).encode() if c else (b'DEPT' if not indirect else b'CH00'), units=b'FEET' if c == 0 else b'    ',
+        chans.append(dict(mnem=('CH%02d' % c).encode() if c else (b'DEPT' if not indirect else b'CH00'), units=(xunits if not indirect else b'FEET') if c == 0 else b'    ',
                           size=RC.SIZE[rc] * samples * bursts, samples=samples, rc=rc, nvals=samples * bursts))
     xrc = rng.choice([68, 73])
     blocks = {4: (1, 66, 1 if up else 255), 12: (4, 68, -999.25)}
     if indirect:
-        blocks.update({13: (1, 66, 1), 14: (4, 65, b'FEET'), 15: (1, 66, xrc), 8: (4, 68, float(dxa)), 9: (4, 65, b'FEET')})
+        blocks.update({13: (1, 66, 1), 14: (4, 65, xunits), 15: (1, 66, xrc), 8: (4, 68, float(dxa)), 9: (4, 65, xunits)})
     pattern = rng.choice([[3, 3, 3], [3, 3, 2], [1, 1, 1, 1], [4, 2], [1], [5], [7, 7, 7, 7, 3], [2, 2, 2, 2, 2, 2, 1], [16, 16, 5]])
     x0 = rng.choice([1000, 0, 12000, 500])
     if up:
